@@ -14,6 +14,18 @@ CHECKS = {
  "C04": dict(level="exploration", tech="independent-decoder monitor over real Writer output plus hook-level exhaustive codec monitor (xxxLen vs appendXxx vs reference primitive decoders)",
    text="Held on the executions produced: the C01 workload judged by decoders that share no code with ion-go (strict validity: version marker, declared lengths, nesting, every SID defined earlier in the stream, text grammar) plus an exhaustive boundary grid over every length/append codec pair exposed by the verif hooks.",
    note="Trusted: refbin/reftext. The codec sub-check needs the verif build tag; if hooks do not build it reports inconclusive and the stream-level monitor decides alone.", ref="3 C04"),
+ "C09": dict(level="exploration", tech="reference-model monitor: symbol-table configurations and builder histories driven through the public API and the Reader, every observable compared with an independent model of the symbol-id space; exhaustive over small configurations",
+   text="Held on the configurations explored: exhaustive small space (0-3 imports over small alphabets, every adjusted max_id 0..len+2, locals with duplicates/gaps/shadowing), exhaustive builder Add histories (length <= 4/5) with re-checks of every earlier (text,id) pair and Build() snapshot, random larger configurations incl. reader+catalog routes (exact / other version / missing / no catalog) and placeholder imports up to 2^40.",
+   note="Trusted: refsym (id-space model). Text \"\" in a table definition is treated as an undefined slot for by-name lookup.", ref="3 C09"),
+ "C13": dict(level="exploration", tech="boundary-exhaustive accessor monitor: every integer of a boundary set through every writer entry point and reference encoding into all four int accessors; exhaustive accessor x type x nullness matrix; byte-level check of the float width chosen by the binary writer; hook-level exhaustive reader codecs",
+   text="Held on the values explored: ints ±(2^k+{-2..2}) at every 7/8-bit step to 2^80, all of [-65536,65536], random to 2^256; 13 types x null x format x annotated x 11 accessors; float32 boundary classes, sub-float32-subnormal values with clean mantissa bits, random bit patterns; lengths to 2^21, decimal exponents at every VarInt step to ±(2^31-1), symbol ids to 2^40.",
+   note="Trusted: math/big and math.Float32bits as oracle; refbin primitive decoders. Reader-codec sub-check needs the verif tag.", ref="3 C13"),
+ "C14": dict(level="exploration", tech="algebraic-law monitor: Decimal operations on the real type compared with math/big.Rat; String() judged by an independent Ion lexer and ParseDecimal; exhaustive small grid, exponent-gap sweep, Truncate sweep, formatting sweep",
+   text="Held on the operations executed: all ordered pairs of a 500-decimal grid for Add/Sub/Mul/Cmp/Equal, every exponent gap 0..80, Truncate over every coefficient in a +-25000 (quick) / +-300000 (thorough) window x precisions 1..6, formatting over digit count 1..40 x scale -45..45 x sign x negative zero, random 300-digit operands over the int32 exponent range.",
+   note="Domain: results representable (exponent sums within int32, |exponent difference| <= 2000). Negative zero is only checked by String/Parse.", ref="3 C14"),
+ "C15": dict(level="exploration", tech="reference-model monitor over an exhaustive calendar-boundary grid: each timestamp through String/ParseTimestamp, text and binary write+read, reference encodings/spellings; negative corpus; sub-nanosecond fraction rounding judged with exact rational arithmetic",
+   text="Held on the timestamps explored: grid of years {1,2,1900,2000,2023,2024,9998,9999} x every month x boundary days x 3 times x 12 offsets (incl. UTC year 0/10000) x precisions x fraction digits 0..9 (quick: seeded subsample), random timestamps, 42 impossible strings, 19 impossible binary encodings, 10..30-digit fractions in text and binary within 0.5 ns.",
+   note="Oracle: independent proleptic-Gregorian arithmetic in the harness model (no time.Time); reftext/refbin lexers.", ref="3 C15"),
 }
 NA = {}
 def main():
